@@ -5,8 +5,8 @@ def-use helpers.  Atoms are canonical source text, so local renames of the
 ``a != b``, ``bool(x)`` wrappers and if/early-return shape do not.
 '''
 import ast
-import copy
 from .core import src, walk_local, dotted
+from . import core as _core
 
 _NEG = {ast.Eq: ast.NotEq, ast.NotEq: ast.Eq, ast.Is: ast.IsNot, ast.IsNot: ast.Is,
         ast.In: ast.NotIn, ast.NotIn: ast.In, ast.Lt: ast.GtE, ast.GtE: ast.Lt,
@@ -212,13 +212,13 @@ def inline(func, expr, depth=4):
                 return node
             defs = local_assigns(func, node.id)
             if len(defs) == 1 and defs[0][1] is not None and not isinstance(defs[0][1], _Unpack):
-                return inline(func, copy.deepcopy(defs[0][1]), depth - 1)
+                return inline(func, _core.clone(defs[0][1]), depth - 1)
             return node
 
         def visit_Lambda(self, node):
             return node
 
-    return Sub().visit(copy.deepcopy(expr))
+    return Sub().visit(_core.clone(expr))
 
 
 def same(a, b):
